@@ -23,6 +23,11 @@ type gridOutcome struct {
 func runGrid(x *explore.X, clients []gridClient, keepOpen bool, tweak func(c *tls.Config, s *tls.Config)) gridOutcome {
 	g := clients[x.Choose("client", len(clients))]
 	out := gridOutcome{client: g}
+	// client Config axis: NextProtos the application configured (the wire list of a parrot
+	// comes from its spec; the two may differ)
+	np := [][]string{nil, {"http/1.1"}, {"h2", "spdy/3"}}[x.Choose("cli.nextprotos", 3)]
+	g.NextProtos = np
+	out.client = g
 	h, err := g.probeHello()
 	if err != nil {
 		out.skip = "no-hello:" + errClass(err)
@@ -49,7 +54,7 @@ func shareShape(o offer) string { return fmt.Sprint(o.shares) }
 func c10Grid(name string, clients []gridClient, srvBudget int) *explore.Scenario {
 	return &explore.Scenario{
 		Name:   name,
-		Budget: map[string]int{"srv": srvBudget},
+		Budget: map[string]int{"srv": srvBudget, "cli": 1},
 		Run: func(x *explore.X) (r explore.Result) {
 			o := runGrid(x, clients, false, nil)
 			if o.skip != "" {
@@ -60,9 +65,9 @@ func c10Grid(name string, clients []gridClient, srvBudget int) *explore.Scenario
 				return
 			}
 			hs := o.hs
-			what := fmt.Sprintf("%s vs server{%s}", o.client.Name, o.sc.desc)
+			what := fmt.Sprintf("%s (Config.NextProtos=%v) vs server{%s}", o.client.Name, o.client.NextProtos, o.sc.desc)
 			r.Nontrivial = true
-			r.Class = fmt.Sprintf("%s|%s", o.client.Name, o.sc.desc)
+			r.Class = fmt.Sprintf("%s|%v|%s", o.client.Name, o.client.NextProtos, o.sc.desc)
 			if o.sc.HRR {
 				r.Count("hrr_handshakes", 1)
 			}
@@ -88,7 +93,7 @@ func c10Grid(name string, clients []gridClient, srvBudget int) *explore.Scenario
 					selIdx = i
 				}
 			}
-			sig := fmt.Sprintf("C10|%s-abort|vers=%04x|shares=%s|selected-share-index=%d|hrr=%v|psk=%v|cerr=%s", who, o.sc.Vers, shareShape(o.offer), selIdx, o.sc.HRR, o.client.PSK, errClass(hs.CErr))
+			sig := fmt.Sprintf("C10|%s-abort|vers=%04x|shares=%s|selected-share-index=%d|hrr=%v|psk=%v|cfgprotos=%d|cerr=%s", who, o.sc.Vers, shareShape(o.offer), selIdx, o.sc.HRR, o.client.PSK, len(o.client.NextProtos), errClass(hs.CErr))
 			if hs.OK() && !hs.EchoOK {
 				sig = fmt.Sprintf("C10|echo-failed|vers=%04x|%s", o.sc.Vers, errClass(hs.EchoErr))
 			}
